@@ -51,9 +51,18 @@ use std::collections::{HashMap, HashSet};
 use std::path::Path;
 use std::sync::Arc;
 
-/// cycles of one DAO transfer (lock group + type group; the type script runs under another VM
-/// version than the `data`-hashed lock, so it is measured, not derived) — set by `measure_cycles`
-static DAO_TX_CYCLES: std::sync::atomic::AtomicU64 = std::sync::atomic::AtomicU64::new(0);
+/// cycles of one DAO transfer (lock group + type group), by the epoch number of the genesis epoch of
+/// the consensus it runs under. The `type`-hashed DAO type script runs under the VM version the
+/// hardfork switch selects for the BLOCK's epoch (rfc0032: VM 1 from epoch 5414 in the mirana
+/// switch), the `data`-hashed lock always under VM 0 — so the figure measured on a chain that starts
+/// at epoch 0 (537 + 537) is not the one of a history that starts at epoch 5709 (537 + 539). Measured
+/// per genesis epoch on a probe chain (`measure_cycles_at`), never derived; a case never crosses a
+/// VM switch (its epochs are genesis_epoch ..= genesis_epoch + a few).
+static DAO_TX_CYCLES: std::sync::Mutex<Option<HashMap<u64, u64>>> = std::sync::Mutex::new(None);
+
+fn dao_tx_cycles(genesis_epoch: u64) -> u64 {
+    DAO_TX_CYCLES.lock().unwrap().as_ref().and_then(|m| m.get(&genesis_epoch).copied()).unwrap_or(0)
+}
 
 const FUTURE: u64 = 15_000; // only used to pick `now`; the model reads the generated constant
 
@@ -166,12 +175,10 @@ fn act_epoch_of(chain: &str) -> u64 {
 
 /// the three activation regimes of a case (round 6)
 fn with_regime(mut cc: CaseCfg, regime: u64, cyc: u64, seed: u64) -> CaseCfg {
-    // DAO transfers only where the block cycle limit is out of reach (all-defaults configurations:
-    // 3.5e9 cycles): a block that carries one was refused with ExceededMaximumCycles at a limit of
-    // 6 plain transactions although the transfer measured alone costs exactly two of them — until
-    // that is understood the cycle-limit boundary probes stay free of DAO-typed cells
-    let _ = cyc;
-    if cc.defaults {
+    // DAO transfers where the cycle limit leaves room for them next to the plain transactions the fork
+    // tree needs (all-defaults and fork-tree configurations); their cycle figure is measured per
+    // genesis epoch (`DAO_TX_CYCLES`), so the cycle-limit boundary probes count them exactly
+    if cc.defaults || cc.max_cycles >= cyc * 6 {
         cc.dao = true;
         cc.dao_start = [0u64, 0, 5, 9][(seed % 4) as usize];
     }
@@ -264,7 +271,7 @@ fn consensus_for(cc: &CaseCfg, genesis_cells: u64) -> Consensus {
             .median_time_block_count(cc.median)
             .max_block_proposals_limit(cc.max_props)
             .max_block_bytes(cc.max_bytes)
-            .max_block_cycles(cc.max_cycles);
+            .max_block_cycles(cc.max_cycles + std::env::var("VERIF_C03_DEBUG_SLACK").ok().and_then(|v| v.parse::<u64>().ok()).unwrap_or(0));
     }
     b.build()
 }
@@ -498,7 +505,7 @@ fn describe(ids: &mut Ids, consensus: &Consensus, db: Option<&ChainDB>, cyc: u64
     }
     // script execution is an oracle: every non-cellbase transaction spends always-success cells
     // one script group per transaction (the input lock), one more when its cells carry a type script
-    let dao_cyc = DAO_TX_CYCLES.load(std::sync::atomic::Ordering::Relaxed);
+    let dao_cyc = dao_tx_cycles(consensus.genesis_block().epoch().number());
     let cycles: u64 = txs.iter().skip(1).map(|t| if t.outputs().into_iter().any(|o| o.type_().is_some()) { dao_cyc } else { cyc }).sum();
     s += &format!(" txsok=1 cycles={}", cycles);
     s
@@ -822,6 +829,12 @@ impl Case<'_> {
             (verdict_name(&r, f.tip_hash() == blk.hash()), f.tip_hash() == blk.hash())
         });
         drop(guard);
+        if std::env::var("VERIF_C03_DEBUG_SLACK").is_ok() && matches!(verdict, Ok(true)) {
+            if let Some(ext) = self.node.store().get_block_ext(&blk.hash()) {
+                let kinds: Vec<String> = blk.transactions().iter().skip(1).map(|t| format!("in={} out_typed={} deps={}", t.inputs().len(), t.outputs().into_iter().any(|o| o.type_().is_some()), t.cell_deps().len())).collect();
+                eprintln!("DEBUG-CYCLES block {} num={} cycles={:?} txs={:?}", self.ids.block(&blk.hash()), blk.number(), ext.cycles, kinds);
+            }
+        }
         let after = state_digest(&self.node);
         let tip_after = self.node.tip_hash();
         let st = self.status(&blk.hash());
@@ -1100,11 +1113,25 @@ fn pick_cfg(rng: &mut Rng, cyc: u64) -> CaseCfg {
 
 /// cycles of one always-success input (measured once on a throw-away node; script execution is an oracle)
 fn measure_cycles(base: &Path) -> u64 {
-    let cc = CaseCfg { epoch_len: 10, window: (1, 3), median: 3, max_props: 10, max_bytes: 100_000, max_cycles: 1_000_000_000, defaults: false, chain: "ckb_dev", genesis_epoch: 0, dao: true, dao_start: 10_000_000 };
+    measure_cycles_at(base, 0)
+}
+
+/// the DAO transfer figure for histories that start at `genesis_epoch`, measured once
+fn ensure_dao_cycles(base: &Path, genesis_epoch: u64) {
+    if DAO_TX_CYCLES.lock().unwrap().as_ref().map(|m| m.contains_key(&genesis_epoch)).unwrap_or(false) {
+        return;
+    }
+    measure_cycles_at(base, genesis_epoch);
+}
+
+/// cycles of a plain always-success spend (returned) and of a DAO transfer (recorded for
+/// `genesis_epoch`) on a two-block probe chain whose genesis block is the first block of epoch `genesis_epoch`
+fn measure_cycles_at(base: &Path, genesis_epoch: u64) -> u64 {
+    let cc = CaseCfg { epoch_len: 10, window: (1, 3), median: 3, max_props: 10, max_bytes: 100_000, max_cycles: 1_000_000_000, defaults: false, chain: "ckb_dev", genesis_epoch, dao: true, dao_start: 10_000_000 };
     let consensus = consensus_for(&cc, 2);
     let ncfg = NodeCfg::default();
-    let node = Node::start(&base.join("probe-node"), consensus.clone(), &ncfg);
-    let mut b = ChainBuilder::new(consensus.clone(), &base.join("probe-builder"));
+    let node = Node::start(&base.join(format!("probe-node-{}", genesis_epoch)), consensus.clone(), &ncfg);
+    let mut b = ChainBuilder::new(consensus.clone(), &base.join(format!("probe-builder-{}", genesis_epoch)));
     let cells = plain_genesis_cells(&consensus);
     let tx = spend_tx(&cells[0..1], 1, 100, 1);
     let dtx = dao_transfer(&consensus, &dao_genesis_cells(&consensus)[0], 0, 1);
@@ -1115,7 +1142,10 @@ fn measure_cycles(base: &Path) -> u64 {
     let ext = node.store().get_block_ext(&b2.hash()).expect("ext");
     let cycles = ext.cycles.expect("cycles");
     let cyc = cycles[0];
-    DAO_TX_CYCLES.store(cycles[1], std::sync::atomic::Ordering::Relaxed);
+    DAO_TX_CYCLES.lock().unwrap().get_or_insert_with(HashMap::new).insert(genesis_epoch, cycles[1]);
+    if std::env::var("VERIF_C03_DEBUG_SLACK").is_ok() {
+        eprintln!("DEBUG-CYCLES probe genesis_epoch={} plain={} dao-transfer={}", genesis_epoch, cyc, cycles[1]);
+    }
     node.stop();
     cyc
 }
@@ -1151,6 +1181,9 @@ fn run_case(out: &mut Out, seed: u64, base: &Path, cyc: u64, steps: usize, reorg
         cc = CaseCfg { epoch_len: cc.epoch_len.clamp(5, 9), window: (2, 10), median: 37, max_props: 1500, max_bytes: 597_000, max_cycles: 3_500_000_000, defaults: true, chain: "ckb_dev", genesis_epoch: 0, dao: false, dao_start: 10_000_000 };
     }
     let cc = with_regime(cc, regime, cyc, seed);
+    if cc.dao {
+        ensure_dao_cycles(base, cc.genesis_epoch);
+    }
     let tag = if regime == 0 { String::new() } else { format!(" regime={}", regime) };
     out.begin_case(&if reorg { format!("seed={} reorg=1{}", seed, tag) } else { format!("seed={}{}", seed, tag) });
     let t_case = std::time::Instant::now();
@@ -1376,7 +1409,7 @@ fn step(c: &mut Case) {
     let room = if c.cc.defaults { 4 } else { (c.cc.max_cycles / c.cyc) as usize };
     let mut overflow: Option<TransactionView> = None;
     // a DAO transfer runs two script groups (lock + type)
-    let dao_cyc = DAO_TX_CYCLES.load(std::sync::atomic::Ordering::Relaxed);
+    let dao_cyc = dao_tx_cycles(c.cc.genesis_epoch);
     let cost = |c: &Case, v: &Vec<(TransactionView, u64)>| -> u64 { v.iter().map(|(t, _)| if c.dao_txs.contains_key(&t.hash()) { dao_cyc } else { c.cyc }).sum() };
     while if c.cc.defaults { commit_now.len() > room } else { cost(c, &commit_now) > c.cc.max_cycles } {
         let x = commit_now.pop().unwrap();
@@ -1474,7 +1507,9 @@ fn step(c: &mut Case) {
     // built first and never attached to the builder's store
     let mut over_block = None;
     if let Some(tx) = overflow {
-        if !c.cc.defaults && full {
+        // (not with a transfer the DAO lock-size gate refuses first)
+        let gate_first = matches!(c.dao_txs.get(&tx.hash()), Some((cell, out)) if *out != cell.args_len && cell.created >= c.cc.dao_start && parent_active);
+        if !c.cc.defaults && full && !gate_first {
             let s = c.next_salt();
             let mut ospec = spec.clone();
             ospec.salt = s;
